@@ -74,7 +74,7 @@ long sys_write(int fd, const void *buf, unsigned long n)
 /* ---- reopen: the index file as a sequence of g_nslots records; the watched slot g_wslot holds (g_wseq, g_wprec) and is the FIRST record with that number ---- */
 long g_nslots, g_slot; long g_wslot; unsigned g_wseq; struct FIX8_Prec g_wprec; _Bool g_index_read_fails;
 int g_open_calls;
-int sys_open(const char *path, int flags, ...) { int c = g_open_calls++; return nondet_bool() ? -1 : (c % 2 == 0 ? FOD : IOD); }   /* initialise opens the data file first, then the index file */
+int sys_open(const char *path, int flags, ...) { __CPROVER_assert((flags & 02000) == 0, "C27.reopen.files_are_opened_for_positioned_writes_not_in_append_mode"); int c = g_open_calls++; return nondet_bool() ? -1 : (c % 2 == 0 ? FOD : IOD); }   /* initialise opens the data file first, then the index file */
 void iprec_ctor0(struct FIX8_IPrec *r) { r->_seq = 0; r->_prec._offset = 0; r->_prec._size = 0; }
 long sys_read(int fd, void *buf, unsigned long n)
 {
